@@ -1,7 +1,8 @@
 """C04 — Colang 2 event matching follows the documented partial-match rules.
 
 Tie: translator (constants) + differential on `_compute_arguments_dict_matching_score`,
-`_compute_event_comparison_score`, and end-to-end `match Ev(x=<pattern>)` through run_to_completion.
+`_compute_event_comparison_score`, end-to-end `match Ev(x=<pattern>)` through run_to_completion, and multi-event
+histories whose statement parameters are expressions over changing state (harness/impl/c04_hist.py, Lean `runHist`).
 Oracle: `doc_matches`, a transcription of the property statement / event-generation-and-matching.rst,
 written independently of the Lean model.
 """
@@ -21,8 +22,13 @@ THEOREM_MODULE = "NemoVerif.Theorems.C04"
 RULE = ("pattern: random nested value (scalars, regex, comparison, list, set, dict; depth<=4 quick / 6 thorough); payload: "
         "40% instance of the pattern, 40% instance mutated by add/drop/reorder/alter at random positions, 20% independent; "
         "plus event-level pairs (plain/internal/action events, action uids, flow references, priorities) and end-to-end "
-        "`match Ev(x=pattern)` programs through run_to_completion. non-trivial = pattern contains a container or regex/comparison "
-        "AND payload is not byte-identical to the pattern's own instance; distinct = distinct (pattern, payload) JSON.")
+        "`match Ev(x=pattern)` programs through run_to_completion; plus multi-event history programs (e2e_hist): the statement's parameters "
+        "are expressions over state that changes while the head waits (global via ContextUpdate / direct context write / another flow, "
+        "attribute of a referenced flow or action, variable assigned by a sibling head, $action.Finished(param=expr)), 2-7 steps of "
+        "events (instance of the current / of an earlier pattern, mutated, independent), state changes and noise; loop, two instances, "
+        "or-group, when block. non-trivial = pattern contains a container or regex/comparison "
+        "AND payload is not byte-identical to the pattern's own instance (histories: at least one event with the statement's name); "
+        "distinct = distinct (pattern, payload) JSON.")
 TRUSTED_BASE = [
     "translator harness/translate/c04.py (argument_filter, the four 0.9 literals, InternalEvents.ALL extracted by AST path)",
     "correspondence harness harness/props/C04.py + Lean driver Drive/C04.lean (JSON codecs on both sides)",
@@ -30,7 +36,9 @@ TRUSTED_BASE = [
 ]
 ASSUMPTIONS = [
     "dict keys are strings; floats are finite and exactly dyadic; no NaN/inf; 0.9**k does not underflow (k < 1000)",
-    "modelled by hand: _compute_arguments_dict_matching_score, _compute_event_comparison_score, ComparisonExpression.compare",
+    "modelled by hand: _compute_arguments_dict_matching_score, _compute_event_comparison_score, ComparisonExpression.compare, "
+    "_compute_event_matching_score + the per-head part of the run_to_completion loop (candidate lookup, advance / abort); "
+    "expression evaluation is a parameter of the history theorems (instantiated with the generated template language)",
 ]
 
 SCALARS = [None, True, False, 0, 1, 2, -1, 3, 0.5, 1.0, 2.5, "a", "b", "ab", "ba", "", "1", "True", "aXb"]
